@@ -60,6 +60,11 @@ def raw_op(t, op):
         t0 = t
         t += a[0]
         return None if t is t0 else ('rebound to', type(t).__name__)
+    if k == 'extself': return t.extend(t)               # the argument is (a proxy of) the very list being extended
+    if k == 'iaddself':
+        t0 = t
+        t += t
+        return None if t is t0 else ('rebound to', type(t).__name__)
     if k == 'iter': return [x for x in t]
     if k == 'diter': return [x for x in t]
     if k == 'dkeys': return list(t.keys())
